@@ -97,6 +97,7 @@ type Exec struct {
 
 	model0calls int
 	fmtApprox   int
+	fixed       []uint64 // concrete re-execution: input values in creation order
 	funcs       map[string]int
 	onceDone    map[*Value]bool
 	curStack    string
@@ -476,6 +477,20 @@ func (ex *Exec) newInput(kind string, w int) *Term {
 	name := fmt.Sprintf("%s%d", kind, len(ex.inputs))
 	v := ex.tb.Var(name, w)
 	ex.inputs = append(ex.inputs, v)
+	if ex.fixed != nil {
+		var val uint64
+		if i := len(ex.inputs) - 1; i < len(ex.fixed) {
+			val = ex.fixed[i] & maskB(w)
+		}
+		if ex.model == nil {
+			ex.model = &Model{vals: map[string]uint64{}}
+		}
+		ex.model.vals[name] = val
+		if w == 0 {
+			return ex.tb.Bool(val != 0)
+		}
+		return ex.tb.Const(w, val)
+	}
 	return v
 }
 
